@@ -145,8 +145,8 @@ pub struct Worker<'a, C> {
 }
 
 const WORKER_RECYCLE: u32 = 4000;
-const CASE_CPU_SECONDS: i64 = 4;
-const WORKER_AS_BYTES: u64 = 3 << 30;
+const CASE_CPU_MILLIS: i64 = 500;
+const WORKER_AS_BYTES: u64 = 1 << 30;
 
 impl<'a, C: serde::Serialize + serde::de::DeserializeOwned> Worker<'a, C> {
     pub fn new(eval: &'a dyn Fn(&C, i32) -> Outcome, on_death: &'a dyn Fn(&C, &ChildDeath) -> Outcome) -> Self {
@@ -165,6 +165,7 @@ impl<'a, C: serde::Serialize + serde::de::DeserializeOwned> Worker<'a, C> {
             if pid == 0 {
                 libc::close(down[1]);
                 libc::close(up[0]);
+                libc::prctl(libc::PR_SET_PDEATHSIG, libc::SIGKILL);
                 let rl = libc::rlimit { rlim_cur: WORKER_AS_BYTES, rlim_max: WORKER_AS_BYTES };
                 libc::setrlimit(libc::RLIMIT_AS, &rl);
                 let rl = libc::rlimit { rlim_cur: 0, rlim_max: 0 };
@@ -189,15 +190,15 @@ impl<'a, C: serde::Serialize + serde::de::DeserializeOwned> Worker<'a, C> {
                     // per-case CPU allowance (process CPU time, insensitive to machine load)
                     let tv = libc::itimerval {
                         it_interval: libc::timeval { tv_sec: 0, tv_usec: 0 },
-                        it_value: libc::timeval { tv_sec: CASE_CPU_SECONDS, tv_usec: 0 },
+                        it_value: libc::timeval { tv_sec: CASE_CPU_MILLIS / 1000, tv_usec: (CASE_CPU_MILLIS % 1000) * 1000 },
                     };
-                    libc::setitimer(libc::ITIMER_VIRTUAL, &tv, std::ptr::null_mut());
+                    libc::setitimer(libc::ITIMER_PROF, &tv, std::ptr::null_mut());
                     let o = (self.eval)(&case, up[1]);
                     let off = libc::itimerval {
                         it_interval: libc::timeval { tv_sec: 0, tv_usec: 0 },
                         it_value: libc::timeval { tv_sec: 0, tv_usec: 0 },
                     };
-                    libc::setitimer(libc::ITIMER_VIRTUAL, &off, std::ptr::null_mut());
+                    libc::setitimer(libc::ITIMER_PROF, &off, std::ptr::null_mut());
                     let mut reply = b"#DONE ".to_vec();
                     reply.extend(serde_json::to_vec(&o).unwrap());
                     reply.push(b'\n');
@@ -350,6 +351,9 @@ pub fn campaign<S, C>(
                     report.stats.class(&format!("also-hit:{sig}"));
                 } else {
                     // minimise this case
+                    if std::env::var("XCDR_DEBUG").is_ok() {
+                        eprintln!("[{}] new signature {sig} at case {}; shrinking", cfg.stream, done as usize + idx);
+                    }
                     let from = js.to_string().len() as u64;
                     let tree = &mut trees[idx];
                     let mut best: (Value, String, String) = (js, sig.clone(), what);
@@ -383,6 +387,9 @@ pub fn campaign<S, C>(
                             }
                         }
                     }
+                    if std::env::var("XCDR_DEBUG").is_ok() {
+                        eprintln!("[{}]   shrunk in {iters} steps to {} ({} deaths so far)", cfg.stream, best.1, worker.borrow().deaths);
+                    }
                     seen.insert(sig);
                     seen.insert(best.1.clone());
                     let to = best.0.to_string().len() as u64;
@@ -391,6 +398,9 @@ pub fn campaign<S, C>(
             }
         }
         done += n as u32;
+        if std::env::var("XCDR_DEBUG").is_ok() {
+            eprintln!("[{}] {done}/{} cases, {} deaths, {} failures, {:.1}s", cfg.stream, cfg.cases, worker.borrow().deaths, report.failures.len(), ctx.t0.elapsed().as_secs_f64());
+        }
     }
     report.stats.extra.insert("cases".into(), serde_json::json!(report.stats.evaluations));
     report.stats.extra.insert("worker_deaths".into(), serde_json::json!(worker.borrow().deaths));
